@@ -87,6 +87,37 @@ theorem go_step_book (v : Variant) (latch : Nat) (s s' : St) (r : Nat × Bool) (
     obtain ⟨s1, h1, b1, b2, b3⟩ := C12.stepFull_book v latch s s' hs
     exact ⟨e1, by rw [e1]; exact b1, b2, s1, h1, b3⟩
 
+/-- `n` calls of `Step()` as translated, the latch left at `interruptNone` in between (which is where `Step` leaves it) -/
+def goRun (v : Variant) : Nat → Ex Unit
+  | 0 => pure ()
+  | n + 1 => do let _ ← goStep v (latchNone v); goRun v n
+
+theorem latchNone_idle (v : Variant) : latchNone v ≠ latchNMI v ∧ latchNone v ≠ latchIRQ v := by
+  cases v <;> decide
+
+/-- … are `n` steps of the model -/
+theorem goRun_eq (v : Variant) (n : Nat) : goRun v n = Cpu.run v n := by
+  induction n with
+  | zero => rfl
+  | succ n ih =>
+    funext s
+    show (goStep v (latchNone v) >>= fun _ => goRun v n) s = (step v >>= fun _ => Cpu.run v n) s
+    rw [goStep_eq, ih, Cpu.bind_eq', Cpu.bind_eq', modelStep_run,
+      Cpu.stepFull_idle v _ (latchNone_idle v).1 (latchNone_idle v).2]
+    cases step v s with
+    | none => rfl
+    | some p => rfl
+
+/-- **C01 along every program, on the regenerated code**: while the WDC trace stays native and meets no decimal ADC/SBC, `n` calls of
+`Step()` of either package as translated are `n` steps of the WDC model (width switches and block moves included) -/
+theorem go_run_refines (v : Variant) (n : Nat) (s : St) (h : ∀ k, k < n → C01.Covered (WDC.run k (abs s))) :
+    ∃ s', goRun v n s = some ((), s') ∧ abs s' = WDC.run n (abs s) := by
+  rw [goRun_eq]; exact C01.run_refines v n s h
+
+/-- **C02 along every program, on the regenerated code** -/
+theorem go_runs_agree (n : Nat) : goRun .primary n = goRun .alt n := by
+  rw [goRun_eq, goRun_eq, C02.run_agree]
+
 /-- `Reset()` as translated is the model's -/
 theorem go_reset_eq : Gen.CpuGo.Primary.Reset = Cpu.reset ∧ Gen.CpuGo.Alt.Reset = Cpu.reset :=
   ⟨Cpu.GoTie.Primary.Reset_eq, Cpu.GoTie.Alt.Reset_eq⟩
